@@ -546,8 +546,9 @@ class Check:
         "Hypothesis grammar over function bodies (1-4 statements, recursive expressions with <=6 leaves) placing "
         "recurse / call_next in nested calls, comprehension element / condition / iterable, generator expressions, "
         "lambdas (body and default), nested defs, conditional / boolean operators, f-strings, keyword / starred / "
-        "double-starred arguments, walrus, dict displays, try/finally, generator functions, closures and defaults, in "
-        "functions and OvldBase methods. The rewritten program and a reference program with ordinary callables must "
+        "double-starred arguments, walrus, dict displays, try/finally, generator functions, class statements local to "
+        "the method (site in a method of the local class or directly in its body), closures (also a cell bound only after "
+        "the factory's first call), defaults, __future__ annotations, in functions and OvldBase methods. The rewritten program and a reference program with ordinary callables must "
         "agree on probe log, result, exception, traceback lines, default/closure identity and laziness. Non-trivial = "
         ">=2 rewritten call sites in >=2 syntactic contexts with side-effecting arguments; distinct by (contexts, text)."
     )
